@@ -251,8 +251,8 @@ def wgraph_from_coo_matrix(x):
     """
     if x.shape[0] != x.shape[1]:
         raise ValueError("the input coo_matrix is not square")
-    i, j = x.nonzero()
-    edges = np.vstack((i, j)).T
+    x = x.tocoo()
+    edges = np.vstack((x.row, x.col)).T
     weights = x.data
     wg = WeightedGraph(x.shape[0], edges, weights)
     return wg
